@@ -19,6 +19,7 @@ import ASV.Proofs.Rules
 import ASV.Proofs.RotationStages
 import ASV.Proofs.RuleOrder
 import ASV.Model.DetectRecord
+import ASV.Proofs.RotationCandidates
 namespace ASV.C07
 open ASV ASV.Rules ASV.Proto ASV.Chains
 
@@ -145,6 +146,57 @@ theorem region_components_rotation_invariant_spec (L k : Int) (hL : 0 < L)
   intro g hg
   obtain ⟨g', hg', hiff⟩ := P'.unique h' (g.map f) (List.mem_map_of_mem hg)
   exact ⟨g', hg', fun y => by rw [← hiff y, List.mem_map]⟩
+
+/-- **Neighbouring candidate clusters are rotation invariant (code model of `_find_neighbouring`, any
+    ring).**  `g` re-indexes a protocluster (`rot` applied to its extent), `gc` a candidate cluster found
+    so far (same members, re-indexed; extent rotated); every extent is well formed and is rotated by `k`.
+    Then two protoclusters are put into one neighbouring group on the re-indexed record exactly when they
+    are on the original one.  (From C05 `neighbouring_groups_are_overlap_classes`, which holds on every
+    record after the C05 repairs.) -/
+theorem neighbouring_groups_rotation_invariant (L k : Int) (hL : 0 < L) (singles : List CC.Proto) (cands : List CC.Cand)
+    (rot : Loc → Loc) (g : CC.Proto → CC.Proto) (gc : CC.Cand → CC.Cand)
+    (hinj : ∀ p q, g p = g q → p = q) (hg : ∀ p, (g p).loc = rot p.loc)
+    (hgc : ∀ c, (gc c).members = c.members.map g ∧ (gc c).loc = rot c.loc)
+    (hok : ∀ l, (l ∈ cands.map (·.loc) ∨ l ∈ singles.map (·.loc)) → l.OK L ∧ (rot l).OK L ∧ IsRot L k l (rot l))
+    (a b : CC.Proto) :
+    (∃ r, r ∈ CC.findNeighbouring singles cands ∧ a ∈ r ∧ b ∈ r) ↔
+    (∃ r', r' ∈ CC.findNeighbouring (singles.map g) (cands.map gc) ∧ g a ∈ r' ∧ g b ∈ r') := by
+  rw [ASV.C05.neighbouring_groups_are_overlap_classes, ASV.C05.neighbouring_groups_are_overlap_classes]
+  let f : CC.Spec.U → CC.Spec.U := fun u => ⟨u.members.map g, rot u.span⟩
+  have hunits : CC.neighbourUnits (singles.map g) (cands.map gc) = (CC.neighbourUnits singles cands).map f := by
+    simp only [CC.neighbourUnits, CC.Spec.candUnits, CC.Spec.protoUnits, List.map_append, List.map_map]
+    congr 1
+    · apply List.map_congr_left
+      intro c _
+      simp only [Function.comp, f, (hgc c).1, (hgc c).2]
+    · apply List.map_congr_left
+      intro p _
+      simp only [Function.comp, f, hg p, List.map_cons, List.map_nil]
+  have hspan : ∀ u ∈ CC.neighbourUnits singles cands,
+      u.span.OK L ∧ (f u).span.OK L ∧ IsRot L k u.span (f u).span := by
+    intro u hu
+    apply hok
+    simp only [CC.neighbourUnits, CC.Spec.candUnits, CC.Spec.protoUnits, List.mem_append, List.mem_map] at hu ⊢
+    rcases hu with ⟨c, hc, rfl⟩ | ⟨p, hp, rfl⟩
+    · exact Or.inl ⟨c, hc, rfl⟩
+    · exact Or.inr ⟨p, hp, rfl⟩
+  have hgroups := CC.mem_overlapGroups_rot hL (CC.neighbourUnits singles cands) f g (fun u _ => rfl) hspan
+  rw [hunits]
+  constructor
+  · intro h
+    refine CC.linked_of_cover ?_ (CC.Linked.map_sets g h)
+    intro grp hgrp
+    obtain ⟨grp0, h0, rfl⟩ := List.mem_map.1 hgrp
+    exact ⟨grp0.map g, (hgroups _).2 ⟨grp0, h0, rfl⟩, fun x hx => hx⟩
+  · intro h
+    have h' : CC.Spec.Linked ((CC.Spec.overlapGroups (CC.neighbourUnits singles cands)).map (·.map g)) (g a) (g b) := by
+      refine CC.linked_of_cover ?_ h
+      intro grp hgrp
+      obtain ⟨grp0, h0, rfl⟩ := (hgroups grp).1 hgrp
+      exact ⟨grp0.map g, List.mem_map_of_mem h0, fun x hx => hx⟩
+    obtain ⟨a', b', ea, eb, hl⟩ := CC.Linked.of_map_sets g hinj h'
+    rw [hinj a' a ea, hinj b' b eb] at hl
+    exact hl
 
 /-! ## Part 2 — rule order and sub-selection (C03's model of `apply_cluster_rules` … `build_results`) -/
 
